@@ -481,7 +481,10 @@ class BusCookieAuthenticator :
                 break
 
         if not cookies:
-            os.unlink(self.cookie_file)
+            try:
+                os.unlink(self.cookie_file)
+            except OSError:
+                pass  # already gone: every cookie in it had expired
             os.close(lockfd)
             os.unlink(self.lock_file)
         else:
